@@ -119,7 +119,8 @@ Definition dispatch (s : cl) : cl :=
 Definition pump_tail (s : cl) : cl :=
   if pumpStuck s then s else
   if paused s then s else
-  if rdy s && negb (match q s with [] => true | _ => false end) then
+  (* never while a request is outstanding, whatever the ready flag says (repair of F16) *)
+  if rdy s && negb (match q s with [] => true | _ => false end) && (pend s =? 0) then
     let s1 := dispatch s in
     if pumpStuck s1 then s1 else
     let s2 := set_rdy s1 false in
